@@ -75,7 +75,7 @@ func decodeCases(args []string) {
 		emitCase(b, false, false, "fixture")
 	}
 	for i := 0; i < n; i++ {
-		cfg := mesgGenCfg{wellFormed: r.chance(3, 4), maxFields: 8, unknown: true, tsMode: r.intn(5)}
+		cfg := mesgGenCfg{wellFormed: r.chance(3, 4), maxFields: 8, unknown: true, tsMode: r.pick(0, 1, 2, 3, 4, 5, 5, 6)}
 		ec := r.encCfg()
 		msgs := r.genFit(cfg, 1+r.intn(8), r.chance(1, 3))
 		if ec.protoVer == proto.V1 {
